@@ -2277,6 +2277,9 @@ impl QueryRouter {
         )
     }
 
+    /// Statements after which a cached SELECT / SIMILAR / NEIGHBORS / PATH answer may be stale.
+    /// NODE, EDGE, EMBED and ENTITY commands count as a whole (their read forms only cost a
+    /// cache refill); ROLLBACK replaces the entire store.
     const fn is_write_statement(stmt: &Statement) -> bool {
         matches!(
             &stmt.kind,
@@ -2287,11 +2290,21 @@ impl QueryRouter {
                 | StatementKind::DropTable(_)
                 | StatementKind::CreateIndex(_)
                 | StatementKind::DropIndex(_)
+                | StatementKind::Node(_)
+                | StatementKind::Edge(_)
+                | StatementKind::Embed(_)
+                | StatementKind::Entity(_)
+                | StatementKind::Rollback(_)
+                | StatementKind::GraphBatch(_)
+                | StatementKind::CypherCreate(_)
+                | StatementKind::CypherDelete(_)
+                | StatementKind::CypherMerge(_)
         )
     }
 
     fn cache_key_for_query(command: &str) -> String {
-        format!("query:{}", command.trim().to_lowercase())
+        // not case-folded: `name = 'Bob'` and `name = 'bob'` are different queries
+        format!("query:{}", command.trim())
     }
 
     fn try_cache_get(&self, command: &str) -> Option<QueryResult> {
